@@ -127,7 +127,7 @@ ValueFails(e) ==    \* the call returned a value: is it what the name denotes?
 \* must the call be an error although the arity is right?  (an inapplicable argument)
 MustError(e) ==
   LET f == e.canon  a == e.args IN
-  \/ f \in {"min", "max"} /\ \E i \in 1 .. Len(a) : a[i].t \in {"Null", "Object", "Array"}
+  \/ f \in {"min", "max"} /\ ((\E i \in 1 .. Len(a) : a[i].t = "Null") \/ a[1].t \in {"Object", "Array", "Boolean"})   \* no ordering to fold with
   \/ f \in OneMath \cup {"ceil", "floor"} /\ ~ConvOK(e.mgr, a[1].t, "Double")
   \/ f = "choose" /\ a[1].k = "int" /\ a[1].t \in Integral /\ (a[1].n < 0 \/ a[1].n >= Len(a))
   \/ f = "sum" /\ a[1].t \in {"Boolean", "Object", "Array", "DateTime"}
